@@ -41,6 +41,7 @@ func init() {
 			py.MustNewMethod("exc_name", hostExcName, 0, "exc_name(e): class name of an exception instance"),
 			py.MustNewMethod("tick", hostTick, 0, "tick(i): side effect marker"),
 			py.MustNewMethod("tk", hostTk, 0, "tk(i, v): side effect marker i, returns v"),
+			py.MustNewMethod("echo", hostEcho, 0, "echo(v): reference-side stand-in for the interactive echo of a nested expression statement"),
 			py.MustNewMethod("libdir", hostLibdir, 0, "libdir(name): absolute path of a scenario directory"),
 			py.MustNewMethod("fs_add", hostFsAdd, 0, "fs_add(relpath): a file of the scenario appears in the file system now"),
 		},
@@ -82,6 +83,14 @@ func hostTick(self py.Object, args py.Tuple) (py.Object, error) {
 
 // FSAdd is installed by the engine that owns the virtual file system.
 var FSAdd func(rel string)
+
+func hostEcho(self py.Object, args py.Tuple) (py.Object, error) {
+	s := sessionOf(self)
+	if s != nil && s.Hook != nil {
+		s.Hook("echo", args)
+	}
+	return py.None, nil
+}
 
 func hostLibdir(self py.Object, args py.Tuple) (py.Object, error) {
 	if len(args) != 1 {
